@@ -10,11 +10,16 @@ def sh(cmd):
     return subprocess.run(cmd, shell=True, stdout=subprocess.PIPE, stderr=subprocess.STDOUT)
 
 def main():
+    summary_only = "--summary" in sys.argv
+    if summary_only:
+        sys.argv.remove("--summary")
     names = sys.argv[1:] or sorted(d for d in os.listdir(os.path.join(ROOT, "seeded")) if os.path.isdir(os.path.join(ROOT, "seeded", d)))
     rows = []
     for name in names:
         d = os.path.join(ROOT, "seeded", name); meta = json.load(open(os.path.join(d, "meta.json")))
         pid = meta["property"]; wt = "/tmp/sw_%s" % name
+        if summary_only:
+            rows.append((name, meta, meta.get("checks", {}).get(pid))); continue
         sh("git -C /repo worktree remove --force %s" % wt); shutil.rmtree(wt, ignore_errors=True)
         sh("git -C /repo worktree add -f %s HEAD -q" % wt)
         try:
